@@ -44,13 +44,6 @@ def run(ctx):
     cands = [g for g in cands if g.has_error()]
     recs, stats, ws = lrcommon.prepare_parsers(ctx, cands, flags=[])
     recs = [r for r in recs if r.bin][: (30 if not thorough else 300)]
-    old = lrobl.check_batch
-
-    def batch(b, checks, tag, timeout=900):
-        return old(b, checks, tag, timeout)
-    # the generated file needs LR.Recovery for x_canon / x_recover_conv
-    import lrobl as L
-    src = open(L.__file__).read()
     res, errs = check_all_recovery(recs)
     total = disagreements = reported = 0
     distinct = set()
